@@ -774,6 +774,223 @@ def stream_equal(chk, i, rng):
         chk.sample({"stream": "equal", **{k: v for k, v in replay.items() if k != "X"}})
 
 
+# ------------------------------------------------------------------ stream: fit -> set_params -> score
+FAMILY = {"KLGEMINI": G.KLGEMINI, "TVGEMINI": G.TVGEMINI, "HellingerGEMINI": G.HellingerGEMINI, "ChiSquareGEMINI": G.ChiSquareGEMINI,
+          "MMDGEMINI": G.MMDGEMINI, "WassersteinGEMINI": G.WassersteinGEMINI}
+
+
+def gemini_related(rng, name, keep, n, allow_pre=True):
+    """A random setting of the GEMINI-related hyper-parameters of estimator `name` (values valid for fit)."""
+    def aff(kind):
+        fn, ps = affinity_config(rng, kind, keep)
+        if fn == "precomputed" and not allow_pre:
+            fn = "rbf" if kind == "K" else "cityblock"
+        if isinstance(fn, str) and fn in ("chi2", "additive_chi2", "haversine"):
+            fn = "laplacian" if kind == "K" else "l1"           # data of the sequences is signed, any width
+        if not isinstance(fn, str) or fn == "precomputed":
+            ps = None if rng.random() < 0.6 else ps
+        elif ps is not None:
+            ps = kernel_params_for(rng, fn) if kind == "K" else metric_params_for(rng, fn)
+            keep.append(ps)
+        return fn, ps
+    cfg = {}
+    if name in MMD_EST:
+        cfg["kernel"], cfg["kernel_params"] = aff("K")
+        cfg["ovo"] = bool(rng.integers(0, 2))
+    elif name in WAS_EST:
+        cfg["metric"], cfg["metric_params"] = aff("D")
+        cfg["ovo"] = bool(rng.integers(0, 2))
+    elif name == "KernelRIM":
+        fn, ps = aff("K")
+        if fn == "precomputed":
+            fn, ps = "sigmoid", None
+        cfg["base_kernel"], cfg["base_kernel_params"] = fn, ps
+    elif name == "Kauri":
+        fn, _ = aff("K")
+        cfg["kernel"] = fn if isinstance(fn, str) else "polynomial"
+    elif name in GEN_EST:
+        r = rng.random()
+        if r < 0.1:
+            cfg["gemini"] = None
+        elif r < 0.5:
+            cfg["gemini"] = str(rng.choice(sorted(DOC_REGISTRY)))
+        else:
+            kind = "K" if rng.random() < 0.6 else "D"
+            fn, ps = aff(kind)
+            g = (G.MMDGEMINI if kind == "K" else G.WassersteinGEMINI)(ovo=bool(rng.integers(0, 2)),
+                                                                      **({"kernel": fn, "kernel_params": ps} if kind == "K" else {"metric": fn, "metric_params": ps}))
+            if rng.random() < 0.25:
+                g = [G.KLGEMINI, G.TVGEMINI, G.HellingerGEMINI, G.ChiSquareGEMINI][int(rng.integers(0, 4))](ovo=bool(rng.integers(0, 2)))
+            keep.append(g)
+            cfg["gemini"] = g
+    return cfg
+
+
+def needs_matrix(cfg):
+    g = cfg.get("gemini")
+    vals = [cfg.get("kernel"), cfg.get("metric"), getattr(g, "kernel", None), getattr(g, "metric", None)]
+    return any(isinstance(v, str) and v == "precomputed" for v in vals)
+
+
+def uses_wasserstein(name, cfg):
+    g = cfg.get("gemini")
+    return name in WAS_EST or isinstance(g, G.WassersteinGEMINI) or (isinstance(g, str) and g.startswith("wasserstein"))
+
+
+def stream_sequence(chk, i, rng):
+    """score() must use the GEMINI and the affinity described by the hyper-parameters as they are when it is called."""
+    from gemclus.tree._utils import gemini_objective
+    pool = MMD_EST + WAS_EST + GEN_EST + ["KernelRIM", "Kauri", "RIM", "SparseLinearMI"]
+    name = pool[i % len(pool)]
+    control = (i // len(pool)) % 4 == 3                      # set_params before the first fit
+    objs, keep = Objs(), []
+    n, d = int(rng.integers(8, 15)), int(rng.integers(2, 4))
+    X = np.ascontiguousarray(impl.blobs(rng, n, d, k=3) * 0.6)
+    cfg0 = gemini_related(rng, name, keep, n)
+    cfg1 = gemini_related(rng, name, keep, n)
+    if cfg1 and rng.random() < 0.5:                           # change a single hyper-parameter only
+        k = sorted(cfg1)[int(rng.integers(0, len(cfg1)))]
+        cfg1 = {k: cfg1[k]}
+        if k.endswith("_params") and isinstance(cfg0.get(k[:-7]), str) and cfg0[k[:-7]] != "precomputed":
+            cfg1[k] = (kernel_params_for if "kernel" in k else metric_params_for)(rng, cfg0[k[:-7]]) or None
+            keep.append(cfg1[k])
+    for fk in ("kernel", "metric", "base_kernel"):           # keep name and parameter dictionary compatible after a partial change
+        fv, pv = {**cfg0, **cfg1}.get(fk), {**cfg0, **cfg1}.get(fk + "_params")
+        if isinstance(fv, str) and fv != "precomputed" and isinstance(pv, dict):
+            try:
+                (pairwise_distances if fk == "metric" else pairwise_kernels)(X[:2], metric=fv, **pv)
+            except TypeError:
+                cfg1[fk + "_params"] = None
+    common = dict(max_iter=int(rng.integers(1, 4)), learning_rate=0.01, random_state=int(rng.integers(0, 100)), n_hidden_dim=4,
+                  batch_size=None if rng.random() < 0.5 else int(rng.integers(3, n + 1)))
+    common["max_clusters" if name == "Kauri" else "n_clusters"] = int(rng.integers(2, 4))
+    mat = lambda: np.round(np.abs(rng.normal(size=(n, n))), 3)        # noqa: E731
+    replay = {"estimator": name, "order": "set_params-then-fit" if control else "fit-then-set_params", "initial": {k: repr(v) for k, v in cfg0.items()},
+              "changed": {k: repr(v) for k, v in cfg1.items()}, "common": common, "X": X.tolist()}
+    est = impl.make(name, **cfg0, **common)
+    try:
+        if control:
+            est.set_params(**cfg1)
+            y_fit = mat() if needs_matrix({**cfg0, **cfg1}) else None
+            est.fit(X, y_fit)
+        else:
+            y_fit = mat() if needs_matrix(cfg0) else None
+            est.fit(X, y_fit)
+            est.set_params(**cfg1)
+    except (ValueError, TypeError) as e:
+        chk.fail("sequence:fit", f"{name}: fit on a valid configuration raised {e!r}", replay, layer="L3")
+        return
+    cur = {**cfg0, **cfg1}
+    pre = needs_matrix(cur)
+    give_y = rng.random() < (0.75 if pre else 0.15)
+    y = mat() if give_y else None
+    replay.update(precomputed=pre, matrix_given=give_y, y=None if y is None else y.tolist())
+    params = {p: v for p, v in est.get_params(deep=False).items()}
+    with warnings.catch_warnings(record=True):
+        warnings.simplefilter("always")
+        try:
+            got = ("ok", float(est.score(X, y)))
+        except ValueError as e:
+            got = ("ValueError", str(e)[:80])
+        except TypeError as e:
+            got = ("TypeError", str(e)[:80])
+    for c in keep:
+        if callable(c) and hasattr(c, "calls"):
+            c.calls.clear()
+    # ---- L2: the model's GEMINI / affinity for the CURRENT hyper-parameters
+    exp = None
+    if name == "Kauri":
+        out = read_outcome(chk.ask(f"c11.affinity {xs(name)} {objs.kwargs(params)} {int(give_y)}"))
+        e = expected_from_outcome(objs, out, X, y)
+        if pre and not give_y:
+            if got[0] == "ValueError":
+                exp = ("ValueError", None)              # a repaired Kauri (F17 gone)
+            else:
+                chk.fail("kauri:precomputed-missing-matrix", "Kauri(kernel='precomputed').score(X) without a matrix does not raise (linear-kernel fallback)", replay, layer="L3")
+        if exp is None:
+            A = e[1] if e[0] in ("equal", "is") else None
+            exp = ("ok", float(gemini_objective(est.predict(X), A))) if A is not None else (e[0], None)
+    else:
+        gob, desc = read_gobj(chk.ask(f"c11.gemini {xs(name)} {objs.kwargs(params)}"))
+        if name == "KernelRIM":
+            o = read_outcome(chk.ask(f"c11.kernelrim {objs.tok(params['base_kernel'])} {objs.tok(params['base_kernel_params'])}"))
+            ek = expected_from_outcome(objs, o, X, None, est.input_data_)
+            P = None if ek[0] in ("TypeError", "ValueError") else est._infer(ek[1](X, est.input_data_) if ek[0] == "callable" else ek[1], retain=False)
+        else:
+            P = est.predict_proba(X)
+        if P is None:
+            exp = (ek[0], None)
+        elif desc is None:
+            exp = ("ValueError", None)
+        elif desc[0] == "DU":
+            g = objs.untok(desc[1])
+            try:
+                exp = ("ok", float(g(P, g.compute_affinity(X, y))))
+            except ValueError:
+                exp = ("ValueError", None)
+            except TypeError:
+                exp = ("TypeError", None)
+        else:
+            _, gcls, fam, ovo, aff = desc
+            ovo_v = objs.untok(ovo)
+            if aff[0] == "AN":
+                exp = ("ok", float(FAMILY[fam](ovo=ovo_v)(P, None)))
+            else:
+                out = read_outcome(chk.ask(f"c11.dispatch {aff[1]} {aff[2]} {aff[3]} {int(give_y)}"))
+                e = expected_from_outcome(objs, out, X, y)
+                if e[0] in ("ValueError", "TypeError"):
+                    exp = (e[0], None)
+                else:
+                    A = e[1](X) if e[0] == "callable" else e[1]
+                    ref = FAMILY[fam](ovo=ovo_v, **({"kernel": "precomputed"} if fam == "MMDGEMINI" else {"metric": "precomputed"}))
+                    exp = ("ok", float(ref(P, A)))
+    ok = got[0] == exp[0] and (got[0] != "ok" or abs(got[1] - exp[1]) <= 1e-9 * (1 + abs(exp[1])) or (got[1] != got[1] and exp[1] != exp[1]))
+    if not ok:
+        chk.fail("sequence:model-mismatch", f"{name} [{replay['order']}]: score = {got}, but the GEMINI / affinity the current hyper-parameters describe (model) give {exp}", replay)
+    # ---- L3: the same, from the documentation and freshly built library objects, independently of the Coq model
+    try:
+        if name == "Kauri":
+            k = est.kernel
+            if k == "precomputed":
+                ind = None if y is None else ("ok", float(gemini_objective(est.predict(X), y)))
+            else:
+                ind = ("ok", float(gemini_objective(est.predict(X), pairwise_kernels(X, metric=k))))
+        else:
+            if name in MMD_EST:
+                g = G.MMDGEMINI(ovo=est.ovo, kernel=est.kernel, kernel_params=est.kernel_params)
+            elif name in WAS_EST:
+                g = G.WassersteinGEMINI(ovo=est.ovo, metric=est.metric, metric_params=est.metric_params)
+            elif name in MI_EST:
+                g = G.KLGEMINI(ovo=False)
+            else:
+                v = est.gemini
+                g = v if isinstance(v, tuple(FAMILY.values())) else (lambda c, o: c(ovo=o))(*DOC_REGISTRY["mmd_ova" if v is None else v])
+            if name == "KernelRIM":
+                bk, bp = est.base_kernel, est.base_kernel_params
+                Kx = bk(X, est.input_data_) if callable(bk) else pairwise_kernels(X, est.input_data_, metric=bk, **(bp or {}))
+                Pi = est._infer(Kx, retain=False)
+            else:
+                Pi = est.predict_proba(X)
+            with warnings.catch_warnings():
+                warnings.simplefilter("ignore")
+                ind = ("ok", float(g(Pi, g.compute_affinity(X, y))))
+    except ValueError:
+        ind = ("ValueError", None)
+    except TypeError:
+        ind = ("TypeError", None)
+    if ind is not None:
+        ok3 = got[0] == ind[0] and (got[0] != "ok" or abs(got[1] - ind[1]) <= 1e-9 * (1 + abs(ind[1])) or (got[1] != got[1] and ind[1] != ind[1]))
+        if not ok3:
+            key = f"sequence:score:{name}" if not (pre and not give_y) else f"sequence:missing-matrix:{name}"
+            chk.fail(key, f"{name} [{replay['order']}]: score(X{', y' if give_y else ''}) = {got}; the hyper-parameters {({k: repr(v)[:40] for k, v in cur.items()})} describe {ind}", replay, layer="L3")
+    changed = any(repr(cfg0.get(k)) != repr(v) for k, v in cfg1.items())
+    chk.traces += 1
+    chk.dist[f"sequence:{'control' if control else 'fit-set-score'}:{got[0]}"] += 1
+    chk.count((name, control, tuple(sorted(cfg1)), got[0], pre, give_y, repr(sorted(cur.items(), key=str))[:80]) if (changed or control) else None)
+    if i < 2:
+        chk.sample({"stream": "sequence", **{k: v for k, v in replay.items() if k not in ("X", "y")}, "score": got})
+
+
 def stream_kauri_missing(chk, i, rng):
     """Whole-fit replay of the refuted statement's witness (F17): Kauri(kernel='precomputed').fit(X) without a matrix."""
     n, d = int(rng.integers(6, 20)), int(rng.integers(2, 4))
@@ -800,7 +1017,7 @@ def stream_kauri_missing(chk, i, rng):
 
 
 STREAMS = {"ctor": (stream_ctor, 900, 9000), "get_gemini": (stream_get_gemini, 1800, 20000), "registry": (stream_registry, 100, 600),
-           "affinity": (stream_affinity, 2400, 25000), "equal": (stream_equal, 500, 5000), "kauri_missing": (stream_kauri_missing, 6, 40)}
+           "affinity": (stream_affinity, 2400, 25000), "equal": (stream_equal, 500, 5000), "sequence": (stream_sequence, 420, 5000), "kauri_missing": (stream_kauri_missing, 6, 40)}
 
 
 def main():
@@ -823,7 +1040,9 @@ def main():
                     "get_gemini of every estimator over all scikit-learn kernel and metric names, 'precomputed', callables, parameter dictionaries, ovo, gemini None / 13 names / unknown names / instances, "
                     "through the constructor or set_params; the registry by behaviour; compute_affinity / Kauri._compute_kernel / KernelRIM._compute_kernel against scikit-learn called directly "
                     "(exact equality, object identity for callables and precomputed, errors for a missing matrix or malformed parameters); whole fits, sparse paths (dynamic=False) and Kauri trees "
-                    "with a named affinity vs the equal precomputed matrix. non-trivial = a configuration that departs from the defaults (non-default branch, parameters that change the matrix, "
+                    "with a named affinity vs the equal precomputed matrix; sequences fit -> set_params(kernel / kernel_params / metric / metric_params / ovo / gemini / base_kernel / Kauri kernel) -> score(X[, y]) "
+                    "(and set_params before the first fit as a control): the score must be the GEMINI and affinity the CURRENT hyper-parameters describe (model and documentation), "
+                    "a missing precomputed matrix must raise. non-trivial = a configuration that departs from the defaults (non-default branch, parameters that change the matrix, "
                     "a tree with a split, a path with two steps); distinct = distinct configuration signature")
 
 
